@@ -225,6 +225,14 @@ def run(ctx):
                 accepted = desired < len(ack.results) and int(ack.results[desired].result) == 0
                 if (r_ == "ok accepted") != accepted and r_ != "err IndexError":
                     ctx.violation("_process_bind_result does not accept exactly the contexts the server accepted", {"results": [int(x.result) for x in ack.results], "desired": desired}, r_, accepted)
+                # the verdict on the offered contexts is the one in the server's bind_ack — the FIRST reply on the wire — whatever
+                # later legs carried and whatever object bind() hands back
+                if out.startswith("ok") and replies and replies[0] is not None:
+                    first = _pdu.PDU.unpack(replies[0])
+                    acc0 = desired < len(first.results) and int(first.results[desired].result) == 0
+                    if r_ == "ok accepted" and not acc0:
+                        ctx.violation("a request would be issued on a presentation context the server's bind_ack did not accept",
+                                      {**inp, "bind_ack_results": [int(x.result) for x in first.results], "desired": desired}, r_, "error")
     for i in range(0, len(cases), 3000):
         ctx.compare_batch(cases[i:i + 3000], nontrivial=lambda line, impl: True)
 
